@@ -116,3 +116,15 @@ func kindOr(k string) string {
 	}
 	return k
 }
+
+// TimeSimFile draws one file for the simulated-clock arm of C08 (timesim):
+// the ordinary C08 files without the heavy classes.
+func TimeSimFile(r *core.Rng) (*core.WriterSpec, []byte, []interface{}, bool) {
+	o := fileOpts("quick", 1, r.Chance(1, 2))
+	o.LargePct, o.ManyPct, o.HugePct, o.GiantPct, o.BoundaryPct = 0, 0, 0, 0, 0
+	f, ok := genFile(r, o)
+	if !ok {
+		return nil, nil, nil, false
+	}
+	return f.W, f.Data, f.Want, true
+}
